@@ -12,6 +12,16 @@ def prefix_files(files, pre):
     return out
 
 
+def case_scripts(case):
+    """external scripts of a case: given explicitly, or implied by `<wxs src>` entries of its files"""
+    out = list(case.get("scripts", []))
+    for f in case["files"]:
+        for w in f.get("wxs", []):
+            if "src" in w and not any(p == w["src"] for p, _ in out):
+                out.append([w["src"], concretise.wxs_source(w["members"], concretise.FN_TABLE)])
+    return out
+
+
 def build_sources(case, rnd, nvariants, plain_first=True):
     """-> list of (variant_no, [(path, text)], scripts)"""
     out = []
@@ -22,13 +32,15 @@ def build_sources(case, rnd, nvariants, plain_first=True):
     return out
 
 
-def replay(cases, rnd, nvariants=2, chunk=150, want_extra=None, main="a", jobs=None):
+def replay(cases, rnd, nvariants=2, chunk=150, want_extra=None, main="a", jobs=None, units=None):
     """cases: [{files, data, tree, steps?, scripts?}] (spec JSON).  Returns a list of records
-    {case, variant, sources, problems, panic, warn, bkeys} — one per (case, variant)."""
-    units = []
-    for ci, case in enumerate(cases):
-        for v, srcs in build_sources(case, rnd, nvariants):
-            units.append({"ci": ci, "v": v, "srcs": srcs})
+    {case, variant, sources, problems, panic, warn, bkeys} — one per (case, variant).
+    `units` (optional): pre-built [{ci, v, srcs}] instead of fresh concretisations."""
+    if units is None:
+        units = []
+        for ci, case in enumerate(cases):
+            for v, srcs in build_sources(case, rnd, nvariants):
+                units.append({"ci": ci, "v": v, "srcs": srcs})
     chunks = [units[i:i + chunk] for i in range(0, len(units), chunk)]
     vcases = []
     for k, ch in enumerate(chunks):
@@ -39,7 +51,7 @@ def replay(cases, rnd, nvariants=2, chunk=150, want_extra=None, main="a", jobs=N
             u["pre"] = pre
             for p, t in u["srcs"]:
                 files.append([pre + p, t])
-            for p, t in cases[u["ci"]].get("scripts", []):
+            for p, t in case_scripts(cases[u["ci"]]):
                 scripts.append([pre + p, t])
         vcases.append({"id": k, "files": files, "scripts": scripts, "want": ["groups"] + (want_extra or [])})
     vres = vlib.run_vh("tmpl", vcases, jobs=jobs)
@@ -54,7 +66,7 @@ def replay(cases, rnd, nvariants=2, chunk=150, want_extra=None, main="a", jobs=N
         for k in retry:
             for u in chunks[k]:
                 files = [[u["pre"] + p, t] for p, t in u["srcs"]]
-                scripts = [[u["pre"] + p, t] for p, t in cases[u["ci"]].get("scripts", [])]
+                scripts = [[u["pre"] + p, t] for p, t in case_scripts(cases[u["ci"]])]
                 new_chunks.append([u])
                 new_vcases.append({"id": len(chunks) + len(new_chunks), "files": files, "scripts": scripts,
                                    "want": ["groups"] + (want_extra or [])})
@@ -74,7 +86,8 @@ def replay(cases, rnd, nvariants=2, chunk=150, want_extra=None, main="a", jobs=N
         for ui, u in enumerate(ch):
             c = cases[u["ci"]]
             jcases.append({"id": len(records), "path": u["pre"] + main, "data": c["data"], "tree": c.get("tree"),
-                           "steps": c.get("steps", []), "tmpl": c.get("tmpl", "")})
+                           "steps": c.get("steps", []), "tmpl": c.get("tmpl", ""), "paths": c.get("paths", False),
+                           "pre": u["pre"]})
             ws = []
             for p, _ in u["srcs"]:
                 ws += warn_by_path.get(u["pre"] + p, [])
@@ -94,6 +107,9 @@ def replay(cases, rnd, nvariants=2, chunk=150, want_extra=None, main="a", jobs=N
             rec["bmDisabled"] = jr.get("bmDisabled")
             rec["bmApplied"] = jr.get("bmApplied", 0)
             rec["bmSkipped"] = jr.get("bmSkipped", 0)
+            rec["pathSites"] = jr.get("pathSites", 0)
+            rec["pathsGiven"] = jr.get("pathsGiven", 0)
+            rec["getput"] = jr.get("getput", 0)
     return records
 
 
